@@ -2,6 +2,7 @@ package grpc2
 
 import (
 	"bytes"
+	"encoding/json"
 	"fmt"
 	"math/bits"
 	"runtime/debug"
@@ -10,6 +11,7 @@ import (
 
 	"github.com/sarchlab/akita/v5/simulation"
 
+	"verif/harness/checks/grpd"
 	"verif/harness/lib"
 	"verif/harness/simx"
 )
@@ -28,6 +30,11 @@ type c33Case struct {
 	// complete one are run
 	Slow string `json:"slow,omitempty"`
 	Few  bool   `json:"few,omitempty"`
+	// relay-network family (harness components of C09, ticking and
+	// event-driven, over one or two direct connections): the opaque case and
+	// its label
+	Relay      json.RawMessage `json:"relay,omitempty"`
+	RelayLabel string          `json:"relay_label,omitempty"`
 }
 
 // light observers, one bit each
@@ -243,7 +250,33 @@ func clipS(s string) string {
 	return s
 }
 
+// runC33Relay: bare run vs engine hook, port hooks, both.
+func runC33Relay(cs c33Case) (string, []lib.Problem) {
+	bare, err := grpd.C33RelayRun(cs.Relay, 0)
+	if err != nil {
+		return "bad-case", []lib.Problem{{Key: "INTERNAL:bad-relay-case", What: err.Error()}}
+	}
+	var probs []lib.Problem
+	runs := 1
+	for mask, label := range map[int]string{1: "engine-hook", 2: "port-hooks", 3: "engine-hook+port-hooks"} {
+		fp, _ := grpd.C33RelayRun(cs.Relay, mask)
+		runs++
+		if fp != bare {
+			probs = append(probs, lib.Problem{Key: "observe:relay-network:arrivals-differ:" + label,
+				What: fmt.Sprintf("relay network %s case %s under {%s}: sinks saw %q, the bare run %q", cs.RelayLabel, string(cs.Relay), label, fp, bare)})
+		}
+	}
+	sort.Slice(probs, func(i, j int) bool { return probs[i].Key < probs[j].Key })
+	if c33Ctx != nil {
+		c33Ctx.Add("observed_runs", int64(runs))
+	}
+	return "relay " + cs.RelayLabel, probs
+}
+
 func runC33(cs c33Case) (string, []lib.Problem) {
+	if cs.Relay != nil {
+		return runC33Relay(cs)
+	}
 	bare := runObserved(cs, "light", 0)
 	sig := fmt.Sprintf("%v+%s", cs.Cfg.Stages, cs.Cfg.Memory)
 	if cs.Slow != "" {
@@ -395,6 +428,17 @@ func enumC33(c *lib.Ctx, yield func(c33Case) bool) {
 			}
 		}
 	}
+	// relay networks: sources, forwarders and sinks (ticking or event-driven)
+	// over two direct connections, scripts of <= 3 messages (the C09 cases
+	// with an event-driven component and two connections)
+	okRelay := true
+	grpd.C33RelayCases(c, func(raw json.RawMessage, label string) bool {
+		okRelay = yield(c33Case{Relay: raw, RelayLabel: label})
+		return okRelay
+	})
+	if !okRelay {
+		return
+	}
 	// inside a real simulation (DB tracer idle / recording from the start): k = 2 over 2 lines
 	fullCfgs := []simx.ChainCfg{
 		{Stages: []string{"wb"}, Memory: "ideal", NumMem: 1, PortBuf: 4, Lat: 1, MSHR: 2, Eager: true},
@@ -420,7 +464,7 @@ func init() {
 	lib.Register(&lib.Check{
 		ID:    "C33",
 		Level: "exploration",
-		Rule: "differential small-scope simulation on the real components: assemblies = 12 stage stacks {none, rob, wb, wt-around/evict/through, wt-*>wb, rob>wb, rob>wt-through>wb, wb>wb} x memories {ideal, banked2 [thorough +banked1]} x {1, 2 interleaved controllers} x (port buffer, latency, MSHR, issue) settings {(1,0,1,serial), (4,1,2,eager)} [thorough: 3 settings x {serial, eager}], plus 5 DRAM presets x {none, wb}; scripts = every sequence of k=2 operations over {read4@0, read4@8, read line, write line, write4@0, write4@8, masked line write} x 2 [3] same-set lines on every assembly, and k=3 (5 of the 7 operations x 2 lines) on the eager wb and wt-through>wb assemblies over ideal memory [thorough: all 7 operations, every eager cache-bearing assembly over one ideal memory]; back-pressure family: stacks {none, rob, wb, wt-through} x {ideal, banked2} x port buffer {1,2}, eager issue, x requester {takes responses at once, only every 4th tick, none before tick 12} x every burst of k=5 operations over {read4 line A, write4 line A, read4 line B} (243), under the 5 singleton observer sets and the complete one [thorough: all 31]. " +
+		Rule: "differential small-scope simulation on the real components: assemblies = 12 stage stacks {none, rob, wb, wt-around/evict/through, wt-*>wb, rob>wb, rob>wt-through>wb, wb>wb} x memories {ideal, banked2 [thorough +banked1]} x {1, 2 interleaved controllers} x (port buffer, latency, MSHR, issue) settings {(1,0,1,serial), (4,1,2,eager)} [thorough: 3 settings x {serial, eager}], plus 5 DRAM presets x {none, wb}; scripts = every sequence of k=2 operations over {read4@0, read4@8, read line, write line, write4@0, write4@8, masked line write} x 2 [3] same-set lines on every assembly, and k=3 (5 of the 7 operations x 2 lines) on the eager wb and wt-through>wb assemblies over ideal memory [thorough: all 7 operations, every eager cache-bearing assembly over one ideal memory]; back-pressure family: stacks {none, rob, wb, wt-through} x {ideal, banked2} x port buffer {1,2}, eager issue, x requester {takes responses at once, only every 4th tick, none before tick 12} x every burst of k=5 operations over {read4 line A, write4 line A, read4 line B} (243), under the 5 singleton observer sets and the complete one [thorough: all 31]; relay-network family: every C09 case with two direct connections and at least one event-driven component (sources / forwarders / sinks, <= 3 messages at instants {0, 0.5, 1, 2 ns}) bare vs {no-op engine hook, no-op hook on every port, both}, comparing what every sink received and when. " +
 			"Each (assembly, script) is run bare and under EVERY non-empty subset of {recording tracer on every component, incoming+outgoing buffer tracing on every port, engine Before/AfterEvent hook, counting hook on every port, counting hook on every queueing.Buffer reachable in component state} (31 subsets); on 3 [7] assemblies x k=2 over 2 lines also inside a real simulation.Simulation with its DB tracer idle and recording from the start, alone and together with the other observers. " +
 			"Oracle: the fingerprint (per response in arrival order: op, kind, data bytes, simulated completion time; number of responses; final bytes of every backing storage over the touched range; final simulated time; run failure text) equals that of the bare run; generated IDs are not compared. A case = (assembly, script); observed_runs counts the runs.",
 		Sharded:     true,
